@@ -301,6 +301,10 @@ struct CloseCase {
     /// bytes accepted per write call
     accept: u16,
     vectored: bool,
+    /// an unknown-type record precedes the stream terminators, so that (for the Filter role) a
+    /// management reply is still pending in the parser when `close` writes the epilogue
+    #[serde(default)]
+    query: bool,
 }
 
 fn test_close(c: &CloseCase) -> TestResult {
@@ -310,7 +314,12 @@ fn test_close(c: &CloseCase) -> TestResult {
     let cfg = crate::syncdrv::config(256, 1);
     let sp = crate::props::c10::stream_parser_for(&cfg, c.id, c.role, c.keep as u8)?;
     // a compliant client ends every input stream of the role
-    let input: Vec<u8> = wire::encode_all(&wire::role_streams(c.role).iter().map(|&s| wire::Rec::new(s, c.id, vec![], 0)).collect::<Vec<_>>());
+    let mut in_recs: Vec<wire::Rec> = Vec::new();
+    if c.query {
+        in_recs.push(wire::Rec::new(0xc8, 0, vec![1, 2, 3], 5));
+    }
+    in_recs.extend(wire::role_streams(c.role).iter().map(|&s| wire::Rec::new(s, c.id, vec![], 0)));
+    let input: Vec<u8> = wire::encode_all(&in_recs);
     let world = Arc::new(Mutex::new(World::new(input.clone(), vec![(input.len(), Cond::Now)], vec![], vec![WStep::Accept(c.accept.max(1))], c.vectored, IoFault::None)));
     world.lock().unwrap().close_at_end = false;
     let req = fastcgi_server::async_io::Request::new(sp, MockReader(world.clone()), MockWriter(world.clone()));
@@ -342,7 +351,13 @@ fn test_close(c: &CloseCase) -> TestResult {
     let w = world.lock().unwrap();
     let (recs, used) = wire::decode_log(&w.log).map_err(|e| Fail::new("c17-epilogue", e))?;
     vensure!(used == w.log.len(), "c17-epilogue", "end-of-request sequence ends with an incomplete record");
-    let replies: Vec<wire::Reply> = recs.iter().map(wire::classify_out).collect::<Result<_, _>>().map_err(|e| Fail::new("c17-epilogue", e))?;
+    let mut replies: Vec<wire::Reply> = recs.iter().map(wire::classify_out).collect::<Result<_, _>>().map_err(|e| Fail::new("c17-epilogue", e))?;
+    // a pending management reply (Filter role only: `close` has to read up to the final stream)
+    // goes out before the epilogue, intact
+    if c.query && c.role == wire::ROLE_FILTER {
+        vensure!(replies.first() == Some(&wire::Reply::Unknown { id: 0, ty: 0xc8 }), "c17-epilogue", "expected the pending UnknownType reply before the end-of-request sequence, log starts with {:?}", replies.first());
+        replies.remove(0);
+    }
     vensure!(replies.len() == 3, "c17-epilogue", "end-of-request sequence for role {} has {} records: {replies:?}", c.role, replies.len());
     let mut ends: Vec<u8> = Vec::new();
     for r in &replies[..2] {
@@ -370,11 +385,13 @@ pub fn property() -> Property {
                 for id in [1u16, 2, 0x00ff, 0x0100, 0x0101, 0x7fff, 0x8000, 0xfffe, 0xffff] {
                     for (variant, code) in [(0u8, 0u32), (0, 1), (0, wire::ABRT), (0, u32::MAX), (1, 0), (2, 0)] {
                         for keep in [false, true] {
-                            for accept in [1u16, 7, u16::MAX] {
+                            for accept in [1u16, 7, 10, 20, u16::MAX] {
                                 for vectored in [false, true] {
-                                    k += 1;
-                                    if k % n == shard && !sink.check(CloseCase { role, id, variant, code, keep, accept, vectored }) {
-                                        return;
+                                    for query in [false, true] {
+                                        k += 1;
+                                        if k % n == shard && !sink.check(CloseCase { role, id, variant, code, keep, accept, vectored, query }) {
+                                            return;
+                                        }
                                     }
                                 }
                             }
